@@ -99,7 +99,9 @@ TakesHandle(t) == Tasks[t].h = 1
 \* cache_scope of the task: "BACKEND" (default), "CSE" (this execution only), "NONE" (opted out)
 Scope(t) == Tasks[t].scope
 \* check_valid="shallow": the task may be answered by ultimate reduction
-IsSh(t) == Tasks[t].sh = 1
+\* an async def task cannot use single reduction; its backend lookups are shallow (ultimate reduction only)
+IsAsync(t) == Tasks[t].as = 1
+IsSh(t) == Tasks[t].sh = 1 \/ IsAsync(t)
 CurHashes == {<<t, ver[t]>> : t \in TaskNames}
 NoHit == [id |-> <<>>, key |-> <<>>, v |-> 0, sub |-> {}]
 \* _get_call_node: recorded nodes of the call whose recorded subtree tasks are all current (and recorded at all)
@@ -201,7 +203,7 @@ Exec(j) ==
        /\ Served([J EXCEPT ![j].hit = nodeTab[Max(UltNodes(k))]], j, "doneq", "ult",  \* current node's final value
                  << [ty |-> "done", j |-> j] >>, NoTwin)
        /\ UNCHANGED <<running, pend, used, cse, wf, rootval, submitted, evalTab, nodeTab>>
-  ELSE IF Scope(t) = "BACKEND" /\ CacheAllowed /\ k \in evalTab THEN   \* HitSingle
+  ELSE IF Scope(t) = "BACKEND" /\ CacheAllowed /\ ~IsAsync(t) /\ k \in evalTab THEN   \* HitSingle
        /\ Served(J, j, "doneq", "single", << [ty |-> "done", j |-> j] >>, NoTwin)
        /\ UNCHANGED <<running, pend, used, cse, wf, rootval, submitted, evalTab, nodeTab>>
   ELSE IF mode = "dry" /\ KindOf(t) = "noexec" THEN                   \* dry run, unknown executor: rejected
@@ -484,9 +486,17 @@ Once == \A i, i2 \in 1..Len(submitted) :
 \* C09 (safety form): never quiescent with the workflow pending, except a dry run that stopped
 NoHang == (~DevLostWakeup /\ wf = "pending" /\ mode = "real") => (evq # <<>> \/ running # {})
 \* C09: when a real run returns, everything is settled
+\* (as built, open finding: when a failure is caught, jobs that were still running beneath the failed job are
+\*  abandoned -- the workflow can return while they are with the executor; OrphanReport names the programs)
+UnderFailed(j) == \E n \in 1..(Len(j) - 1) : jobs[SubSeq(j, 1, n)].ph = "rejected"
+Orphans == {j \in DOMAIN jobs : UnderFailed(j) /\ jobs[j].ph \notin {"resolved", "rejected"}}
 SettledAtReturn == (wf = "ok") =>
-   /\ waiting = <<>> /\ running = {} /\ \A r \in Res : used[r] = 0
-   /\ \A j \in DOMAIN jobs : jobs[j].ph = "resolved" \/ (jobs[j].ph = "rejected" /\ jobs[j].caught)
+   /\ waiting = <<>> /\ running \subseteq Orphans
+   /\ \A r \in Res : used[r] = FoldSet(LAMBDA j, a : a + Units(jobs[j].t, r), 0, {j \in Orphans : jobs[j].held})
+   /\ \A j \in DOMAIN jobs \ Orphans :
+        jobs[j].ph = "resolved" \/ (jobs[j].ph = "rejected" /\ (jobs[j].caught \/ UnderFailed(j)))
+\* always TRUE; reports the programs in which a real run can return while a job is still running
+OrphanReport == (wf = "ok" /\ running # {}) => PrintT("ORPHANDEV " \o ToJson([pi |-> pi]))
 \* C09 liveness
 Terminates == []<>(RunOver)
 \* C28: a dry run submits nothing
